@@ -296,7 +296,7 @@ def programs(rnd, n, length, avoid_typed_shadow=False):
 
 def standin_prefix_values(tier, seed):
     rnd = random.Random(seed)
-    progs = programs(rnd, 120 if tier == 'thorough' else 25, 10)
+    progs = programs(rnd, 120 if tier == 'thorough' else 20, 10)
     cases, meta = [], []
     for g in progs:
         for k in range(1, len(g.stmts) + 1):
@@ -322,7 +322,7 @@ def standin_prefix_values_build(tier, seed):
     """the same programs through the type checker + VM; values are pinned by `select (name == value) => {true = 1}` statements
     (no default: a different value is a build error) placed right after the binding AND at the end of the program"""
     rnd = random.Random(seed + 1000)
-    progs = programs(rnd, 150 if tier == 'thorough' else 30, 10, avoid_typed_shadow=True)
+    progs = programs(rnd, 400 if tier == 'thorough' else 60, 10, avoid_typed_shadow=True)
     cases = []
     for g in progs:
         lines, tail, n = [], [], 0
@@ -398,6 +398,15 @@ def scope_cases(names):
             cs.append(('let %s = 1;\n%slet %s = 1;' % (n, G, n), None))                                          # even with the same value
             cs.append(('let m = module {p = 1} => { let %s = 1; %s let %s = 2; };\nlet i = m{};' % (n, ' '.join(g1), n), None))
             cs.append(('let %s = 1;\n%slet other = %s;' % (n, G, n), {n: '1', 'other': '1'}))
+            # a parameter hides a binding of the captured scope: an enclosing function's parameter, a map / reduce callback's parameter, a top-level
+            # binding of another type (inline callbacks; for named functions see KNOWN_BUILD), and a closure keeps its own parameter
+            cs.append(('let mk = func(%s) => func(%s) => %s + 1;\n%slet inner = mk(5);\nlet res = inner(1);' % (n, n, n, G), {'res': '2'}))
+            cs.append(('let f = func(%s) => map(func(%s) => %s + 1, [%s, 20]);\n%slet res = f(1);' % (n, n, n, n, G), {'res': '[2,21]'}))
+            cs.append(('let l = map(func(%s) => reduce(func(zz, %s) => zz + %s, 0, [%s, 1]), [1, 2]);\n%slet k9 = 1;' % (n, n, n, n, G), {'l': '[2,3]'}))
+            cs.append(('let %s = "s";\n%slet l = map(func(%s) => %s + 1, [1, 2]);\nlet after = %s;' % (n, G, n, n, n), {'l': '[2,3]', 'after': '"s"'}))
+            cs.append(('let %s = "s";\n%slet l = filter(func(%s) => %s > 1, [1, 2]);\nlet res = reduce(func(zz, %s) => zz + %s, 0, [1, 2]);\nlet after = %s;' % (n, G, n, n, n, n, n),
+                       {'l': '[2]', 'res': '3', 'after': '"s"'}))
+            cs.append(('let f = func(%s) => func(z) => %s + z;\nlet g = f(10);\n%slet %s = 1;\nlet res = g(5);' % (n, n, G, n), {'res': '15', n: '1'}))
         # a format string's item
         if n != 'item':
             for gap in (0, 1, 2):
@@ -408,6 +417,17 @@ def scope_cases(names):
                 cs.append(('let %s = "@{item.a}" %% {a = 1};\n%slet item = 3;' % (n, G), {n: '"1"', 'item': '3'}))
                 cs.append(('let f = func(item) => "@{item + 1}" %% 10;\n%slet %s = f(1);' % (G, n), {n: '"11"'}))
                 cs.append(('let f = func(z) => "@{item + z}" %% 10;\n%slet %s = f(1);\nlet leak = z;' % (G, n), None))
+                # nested formats, formats inside functions and map callbacks: `item` outside is exactly what it was
+                fmts = [('"@{item.s}" %% {s = "@{item + 1}" %% 4}', '"5"'),                       # a format as the argument of a format
+                        ('"@{int(\\"@{item + 1}\\" %% item) + item}" %% 5', '"11"'),              # a format inside a template: the outer item survives it
+                        ('"<@{item}>" %% "[@{item + 1}]" %% 4', '"<[5]>"'),
+                        ('ff(1)', '"11"'), ('map(func(e) => "@{item + 1}" %% e, [1, 2])', '["2","3"]')]
+                for fsrc, fval in fmts:
+                    pre = 'let ff = func(z) => "@{item + z}" % 10;\n' if fsrc.startswith('ff') else ''
+                    fsrc = fsrc.replace('%%', '%')
+                    cs.append(('%slet %s = %s;\n%slet leak = item;' % (pre, n, fsrc, G), None))
+                    cs.append(('let item = 7;\n%slet %s = %s;\n%slet after = item;' % (pre, n, fsrc, G), {n: fval, 'after': '7', 'item': '7'}))
+                    cs.append(('%slet %s = %s;\n%slet item = 1;\nlet again = %s;' % (pre, n, fsrc, G, fsrc), {n: fval, 'again': fval, 'item': '1'}))
     return cs
 
 
@@ -443,7 +463,7 @@ def check_scope(mode, cs, name, bound):
 SCOPE_BOUND = ('%d names x gaps of 0..2 unrelated statements x templates: function referring to a later / earlier binding (direct, in a tuple field, through another function), '
                'parameter equal to an earlier / later top-level name, parameter / map / filter / reduce parameter / `item` / module local / module parameter / `mod` used after the call, '
                "callee using the caller's parameter, module body using a file binding or function defined before / after it, all 25 pairs of {let value, let string, let func, let module, constraint} "
-               'rebinding one name, rebinding inside a module; each invisible-name program has a visible twin whose values are checked')
+               'rebinding one name, rebinding inside a module; parameter equal to an enclosing function\'s / callback\'s parameter or to a top-level binding of another type; `item` after nested formats and formats inside functions and map callbacks (unbound stays unbound, bound keeps its value, a later `let item` succeeds); each invisible-name program has a visible twin whose values are checked')
 
 
 def names_for(tier, seed):
